@@ -20,3 +20,4 @@ PROP = {'engine': 'stack',
  'level_note': "extra callers are placed by latches and sleeps; orders inside the interop server's mutex-protected sections are not schedulable",
  'technique': 'property-based testing (rapid): generated caller schedules, metamorphic expectation for the first caller'}
 PROP['rule'] += " Thorough tier: a fifth of the cases additionally run on hosts built with the race detector (judged there: data races on Go maps inside the emulator, which the Go runtime turns into a fatal error, and host deaths)."
+PROP['rule'] += " Round-6 addition: phase 'stalled' - the extra callers arrive while the runtime works; it then never answers: the first invocation must still be answered by its function timeout (700 ms) within timeout + reset allowance + 1.5 s."
